@@ -1,5 +1,6 @@
 pub mod c01;
 pub mod c09;
+pub mod c13;
 pub mod c15;
 pub mod common;
 pub mod concprops;
@@ -18,6 +19,7 @@ pub fn all() -> Vec<Box<dyn Prop>> {
         Box::new(c09::C09),
         Box::new(seqprops::C10),
         Box::new(seqprops::C11),
+        Box::new(c13::C13),
         Box::new(c15::C15),
         Box::new(seqprops::C16),
         Box::new(crashprops::C04),
